@@ -616,6 +616,9 @@ theorem Ledger.step {s s' : State} (h : Ledger s) {l : Label} (hstep : step s l 
   | inboundFailed p =>
     injection hstep with hstep; subst hstep
     exact h.of_same (disconnectPeer_same ..) (disconnectPeer_shrinks _ _ _ _ (.refl _)).ids
+  | setStored keys =>
+    injection hstep with hstep; subst hstep
+    exact h.setStored keys
 
 theorem Ledger.reachable {s : State} (h : Reachable s) : Ledger s := by
   induction h with
@@ -890,5 +893,8 @@ theorem QuorumInv.step {s s' : State} (h : QuorumInv s)
   | inboundFailed p =>
     injection hstep with hstep; subst hstep
     exact h.of_shrinks (disconnectPeer_same ..) (disconnectPeer_shrinks _ _ _ _ (.refl _))
+  | setStored keys =>
+    injection hstep with hstep; subst hstep
+    exact h.of_shrinks ⟨rfl, rfl, rfl, rfl, rfl⟩ (.refl _)
 
 end Litep2pVerif.Kad.Coordinator
